@@ -2,7 +2,9 @@
 ReactorBase.callFromThread / runUntilCurrent, scheduled deterministically at instrumented atomic points, plus a
 supporting stress run on the real select / poll / epoll / asyncio reactors.
 
-case (scheduled) = {"wants": [k_0..k_{n-1}], "sched": ["R" | "u" | t ...]}
+case (scheduled) = {"wants": [k_0..k_{n-1}], "sched": ["R" | "u" | t ...], "raises": [[t, n] ...]}
+      call n of thread t raises an Exception subclass after recording that it ran (the reactor logs it; the log is
+      captured, and every raising call must be logged exactly once)
       "R" = the reactor thread takes its next atomic step, "u" = the poll call returns spuriously,
       t   = producer thread t takes its next atomic step (append, or wakeUp)
 case (stress)    = {"stress": "select"|"poll"|"epoll"|"asyncio", "threads": n, "calls": m, "seed": s}
@@ -89,6 +91,20 @@ class _Sched:
 
 
 _reactor = None
+_logged = []
+
+
+class ThreadCallBoom(Exception):
+    """raised by scripted thread calls"""
+
+
+def _quiet_log():
+    """send the reactor's failure log to a list instead of stderr (once per process)"""
+    from twisted.logger import globalLogBeginner
+    if not getattr(_quiet_log, "done", False):
+        _quiet_log.done = True
+        globalLogBeginner.beginLoggingTo([_logged.append], redirectStandardIO=False, discardBuffer=True)
+
 
 
 def _get_reactor():
@@ -156,6 +172,9 @@ def _make_queue(sched, state):
 
 def _impl_sched(case) -> str:
     wants = case["wants"]
+    raises = {tuple(x) for x in case.get("raises", [])}
+    _quiet_log()
+    del _logged[:]
     r = _get_reactor()
     sched = _Sched()
     state = {"lens": 0}
@@ -166,10 +185,16 @@ def _impl_sched(case) -> str:
     r.waker.sched = sched
     errors = []
 
+    ncalls = sum(wants)
+
     def fn(t, n):
         sched.point("x")
         sched.seg.append(f"x{t}.{n}")
         executed.append((t, n, threading.get_ident()))
+        if len(executed) > 5 * ncalls + 50:
+            stop.set()              # calls are being re-run without end: let the reactor thread leave its loop
+        if (t, n) in raises:
+            raise ThreadCallBoom(f"{t}.{n}")
 
     def register(tid):
         with sched.cv:
@@ -288,6 +313,9 @@ def _impl_sched(case) -> str:
         final = "ran-%d-of-%d" % (len(got), len(want))
     elif any(i != rt.ident for _, _, i in executed):
         final = "wrong-thread"
+    elif sorted(str(e["log_failure"].value) for e in _logged if "log_failure" in e) != sorted(
+            f"{t}.{n}" for t, n in raises if n < wants[t] if t < len(wants)):
+        final = "raising-call-not-logged-once"
     else:
         for t in range(len(wants)):
             if [n for tt, n in got if tt == t] != list(range(wants[t])):
@@ -308,9 +336,18 @@ else:
     from twisted.internet import asyncioreactor as m
 m.install()
 from twisted.internet import reactor
+from twisted.logger import globalLogBeginner
+logged = []
+globalLogBeginner.beginLoggingTo([logged.append], redirectStandardIO=False, discardBuffer=True)
+class Boom(Exception): pass
 got, rid, res = [], [None], {}
 def fn(t, n):
     got.append((t, n, threading.get_ident()))
+    if len(got) > 3 * nthreads * ncalls + 100 and "runaway" not in res:
+        res["runaway"] = True
+        reactor.stop()
+    if n % 7 == 3:
+        raise Boom("%d.%d" % (t, n))
 def producer(t):
     rng = random.Random(seed * 100 + t)
     for n in range(ncalls):
@@ -336,13 +373,17 @@ wd = threading.Timer(60.0, lambda: (res.setdefault("hang", True), reactor.callFr
 wd.daemon = True; wd.start()
 reactor.run()
 bad = "ok"
-if "hang" in res and "latency" not in res: bad = "idle-call-never-ran"
+nboom = sum(1 for e in logged if "log_failure" in e and isinstance(e["log_failure"].value, Boom))
+if "runaway" in res: bad = "ran-%d-of-%d" % (len(got), nthreads * ncalls)
+elif "hang" in res and "latency" not in res: bad = "idle-call-never-ran"
 elif len(got) != nthreads * ncalls: bad = "ran-%d-of-%d" % (len(got), nthreads * ncalls)
 elif len(set((t, n) for t, n, _ in got)) != len(got): bad = "ran-twice"
 elif any(i != rid[0] for _, _, i in got): bad = "wrong-thread"
 else:
     for t in range(nthreads):
         if [n for tt, n, _ in got if tt == t] != list(range(ncalls)): bad = "order-thread-%d" % t
+    if bad == "ok" and nboom != sum(1 for t in range(nthreads) for n in range(ncalls) if n % 7 == 3):
+        bad = "raising-call-not-logged-once"
     if bad == "ok" and res.get("latency", 99) > 5.0: bad = "idle-call-latency-%.1fs" % res["latency"]
 print("STRESS " + bad)
 '''
@@ -433,6 +474,10 @@ def gen(rng, tier):
     for k, nr in ((1, 9), (2, 7)) if tier == "quick" else ((1, 12), (2, 10), (3, 7)):
         for m in _interleavings([0] * (2 * k), ["R"] * nr):
             cases.append({"wants": [k], "sched": m + ["R"] * (8 + k)})
+            # the same interleaving with a raising call (alone in its batch / first / last of a batch)
+            for bad in ([[0, 0]], [[0, k - 1]]) if k > 1 else ([[0, 0]],):
+                if rng.random() < (0.5 if tier == "quick" else 1.0):
+                    cases.append({"wants": [k], "sched": m + ["R"] * (8 + 2 * k), "raises": bad})
     pre = [0, 0, "R", "R", "R"]        # first call appended+woken, reactor has read total=1 and is about to run it
     for m in _interleavings([0, 0, 1, 1], ["R"] * (5 if tier == "quick" else 7)):
         cases.append({"wants": [2, 1], "sched": pre + m + ["R"] * 10})
@@ -453,7 +498,11 @@ def gen(rng, tier):
                 sched.append("R")
             else:
                 sched.append(rng.randrange(n + (1 if rng.random() < 0.05 else 0)))
-        cases.append({"wants": wants, "sched": sched})
+        case = {"wants": wants, "sched": sched}
+        if rng.random() < 0.5:
+            p = rng.choice([0.15, 0.4, 1.0])
+            case["raises"] = [[t, k] for t in range(n) for k in range(wants[t]) if rng.random() < p]
+        cases.append(case)
     # supporting stress on the real reactors
     for kind in ("select", "poll", "epoll", "asyncio"):
         if tier == "quick":
@@ -472,6 +521,10 @@ def corpus():
         {"wants": [3], "sched": [0, 0, "R", "R", 0, "R", 0, "R", "R", "R", "R", "R", "R", "R", "R", "R", "R", "R", "R"]},
         # spurious poll return
         {"wants": [1, 1], "sched": ["R", "R", "u", "R", 0, 1, "R", "R", "R", 1, 0, "R", "R", "R", "R", "R", "R"]},
+        # a call that raises, alone in its batch: it ran once and is removed from the queue
+        {"wants": [1], "sched": [0, 0] + ["R"] * 14, "raises": [[0, 0]]},
+        # raising calls first and last in a batch of three, one more call appended while the batch runs
+        {"wants": [4], "sched": [0, 0, 0, 0, 0, 0, "R", "R", "R", 0, 0] + ["R"] * 16, "raises": [[0, 0], [0, 2]]},
     ]
 
 
@@ -511,8 +564,9 @@ SPEC = Spec(
          "(12/10/7) reactor steps, every interleaving of two producers' steps with a reactor that is in the middle of "
          "a batch, and random schedules of 10-90 steps over 1-4 producers x 0-4 calls with spurious poll returns; each "
          "observed step (value read by len(), call run, slice deleted, re-wake, sleep/wake/drain, waker flag) must equal "
-         "the LTS's; plus one stress run per real reactor (select, poll, epoll, asyncio): 4 threads x 1500 calls (thorough "
-         "1/4/16 x 10^4), order, exactly-once, reactor thread, idle-call latency < 5 s; non-trivial = some call ran",
+         "the LTS's; in about half of the schedules some calls raise an Exception subclass (each must still count as run "
+         "once, be removed from the queue and be logged exactly once); plus one stress run per real reactor (select, poll, epoll, asyncio): 4 threads x 1500 calls (thorough "
+         "1/4/16 x 10^4), order, exactly-once, reactor thread, every 7th call raising, idle-call latency < 5 s; non-trivial = some call ran",
     trusted=["hand-written LTS coq/C13/Model.v (tied by trace validation only)",
              "hypotheses of the LTS, not checked: list.append / len / del-slice / list iteration step are atomic under "
              "the GIL; a byte written to the waker pipe makes the poll call return and doRead consumes all pending bytes",
